@@ -1,6 +1,8 @@
 package router
 
 import (
+	"net/netip"
+
 	"github.com/IrineSistiana/mosproxy/internal/dnsmsg"
 	"github.com/IrineSistiana/mosproxy/internal/pool"
 	"github.com/IrineSistiana/mosproxy/internal/verifrt"
@@ -77,5 +79,53 @@ func VerifH_C09_StreamFraming() {
 		orig := resp.Answers[j].(*dnsmsg.RawResource)
 		verifrt.Assert(raw.Data[0] == orig.Data[0] && raw.Data[len(raw.Data)-1] == orig.Data[len(orig.Data)-1], "RDATA intact")
 		j++
+	}
+}
+
+// VerifH_C09_UDPClientSize: the UDP listener end to end: a client advertising ANY EDNS0 payload size (or none) asks a
+// question whose upstream answer (47 A records, about 780 octets) may not fit. The datagram sent back is never
+// larger than max(512, advertised size) – 512 without OPT –, decodes, carries TC exactly when answers were left
+// out, keeps the question and, if the client sent an OPT, exactly one OPT.
+func VerifH_C09_UDPClientSize() {
+	verifrt.Unwind(400)
+	verifrt.SchedBound(0)
+	verifrt.CtxNoExpiry = true
+	const extra = 46
+	up := &vKeyedUpstream{big: extra}
+	r := vRouter([]*rule{{upstream: &upstreamWrapper{tag: "up", u: up}}}, false)
+	s, out := vUDPServer(r)
+	withOpt := verifrt.Bool("client.opt")
+	size := verifrt.U16("client.udpsize")
+	client := netip.AddrPortFrom(netip.AddrFrom4([4]byte{198, 51, 100, 7}), 4242)
+	listener := netip.AddrPortFrom(netip.AddrFrom4([4]byte{192, 0, 2, 53}), 53)
+	s.handleMsg(vQueryMsg(0x4444, 'k', withOpt, size), nil, client, listener)
+	verifrt.Quiesce()
+	verifrt.Reach("served")
+	verifrt.Assert(len(*out) == 1, "exactly one datagram")
+	b := (*out)[0].b
+	limit := 512
+	if withOpt && int(size) > 512 {
+		limit = int(size)
+	}
+	verifrt.Assert(len(b) <= limit, "the datagram never exceeds max(512, the size the client advertised) – 512 without EDNS0")
+	m := dnsmsg.NewMsg()
+	verifrt.Assert(m.Unpack(b) == nil, "it decodes")
+	verifrt.Assert(m.ID == 0x4444 && m.Response && len(m.Questions) == 1 && m.Questions[0].Name[1] == 'k', "it answers this query")
+	verifrt.Assert(m.Truncated == (len(m.Answers) < extra+1), "TC exactly when answers were left out")
+	nopt := 0
+	for _, rr := range m.Additionals {
+		if rr.Hdr().Type == dnsmsg.TypeOPT {
+			nopt++
+		}
+	}
+	verifrt.Assert(nopt == verifrt.Ite(withOpt, 1, 0), "exactly one OPT iff the client sent one")
+	for _, rr := range m.Answers {
+		a, ok := rr.(*dnsmsg.A)
+		verifrt.Assert(ok && a.A == vAnswerFor('k'), "kept answers are unmodified")
+	}
+	if len(m.Answers) == extra+1 {
+		verifrt.Reach("complete")
+	} else {
+		verifrt.Reach("truncated")
 	}
 }
